@@ -42,6 +42,10 @@ type rec struct {
 }
 
 type kase struct {
+	// Regime "single-family": one host, one resource, ids at one level only, nothing declared - the plain
+	// case of the statement ("URLs are merged under an inferred path parameter"). Its violations carry their
+	// own signature prefix, so that the open findings of the multi-level regime never cover them.
+	Regime    string   `json:"regime,omitempty"`
 	Threshold int      `json:"threshold"`
 	Declared  []string `json:"declared"`
 	Records   []rec    `json:"records"`
@@ -870,6 +874,44 @@ func genCase(r *sim.Rand) kase {
 	}
 }
 
+// genSingleFamily: host/res/<id>[/details] with one id pool straddling the threshold; optional constants
+// beside the ids; 4-40 records.
+func genSingleFamily(r *sim.Rand) kase {
+	k := kase{Regime: "single-family", Threshold: r.Range(2, 4)}
+	host := sim.Pick(r, []string{"api.com", "svc.example.org"})
+	res := sim.Pick(r, []string{"user", "orders", "v1/accounts"})
+	pool := r.Range(k.Threshold, k.Threshold+4)
+	suffix := r.Chance(1, 3)
+	constants := r.Chance(1, 4)
+	n := r.Range(4, 10)
+	if r.Chance(1, 3) {
+		n = r.Range(11, 40)
+	}
+	nCons := r.Range(1, 3)
+	base := int64(1_700_000_000_000) + int64(r.Intn(1_000_000))
+	for i := 0; i < n; i++ {
+		u := fmt.Sprintf("%s/%s/%d", host, res, 1+r.Intn(pool))
+		if constants && r.Chance(1, 5) {
+			u = host + "/" + res + "/" + sim.Pick(r, []string{"search", "me"})
+		}
+		if suffix && r.Bool() {
+			u += "/details"
+		}
+		rc := rec{
+			TS:       base + int64(r.Intn(5_000_000)) - 2_000_000,
+			Dur:      sim.Pick(r, []int{0, 1, r.Intn(50), r.Intn(5000)}),
+			Status:   sim.Pick(r, statuses),
+			Method:   sim.Pick(r, []string{"GET", "GET", "POST"}),
+			URL:      u,
+			Icpt:     interceptors[0],
+			Consumer: consumers[r.Intn(nCons)],
+		}
+		rc.Tot = rc.Dur + r.Intn(2000)
+		k.Records = append(k.Records, rc)
+	}
+	return k
+}
+
 func fill(r *sim.Rand, k kase, n int, small bool) kase {
 	hosts := []string{"api.com", "svc.example.org"}[:r.Range(1, 2)]
 	// id pools sized around the threshold so the threshold is crossed early, late or never
@@ -1086,6 +1128,16 @@ func main() {
 			nontrivial++
 		}
 	}
+	slo, shi := args.Share(args.Pick(160, 4800))
+	for i := slo; i < shi; i++ {
+		r := args.CaseRand(1_000_000 + i)
+		k := genSingleFamily(r)
+		if runCase(1_000_000+i, args, r, k, v, scratch) {
+			nontrivial++
+			v.Count("nontrivial_single_family_cases", 1)
+		}
+		v.Count("single_family_cases", 1)
+	}
 	if nontrivial == 0 {
 		v.Inconclude("no case of this batch converged the tree across a batch boundary")
 	}
@@ -1101,14 +1153,18 @@ func runCase(idx int, args sim.Args, r *sim.Rand, k kase, v *sim.Verdict, scratc
 			return
 		}
 		reported[sig] = true
-		minimised[sig]++
-		if minimised[sig] > 2 {
-			v.Violate(sig, fmt.Sprintf("(not minimised) case %d, %d records, cuts %v, restarts %v: %s", idx, n, w.Cuts, w.Restarts, detail), w)
+		final := sig
+		if k.Regime != "" {
+			final = strings.Replace(sig, "C15/", "C15/"+k.Regime+"/", 1)
+		}
+		minimised[final]++
+		if minimised[final] > 2 {
+			v.Violate(final, fmt.Sprintf("(not minimised) case %d, %d records, cuts %v, restarts %v: %s", idx, n, w.Cuts, w.Restarts, detail), w)
 			return
 		}
 		m := minimise(w, sig, scratch)
 		md, _ := detailOf(evaluate(m, scratch), sig)
-		v.Violate(sig, fmt.Sprintf("minimal witness: %d records, cuts %v, restarts %v: %s || original (case %d, %d records, cuts %v): %s",
+		v.Violate(final, fmt.Sprintf("minimal witness: %d records, cuts %v, restarts %v: %s || original (case %d, %d records, cuts %v): %s",
 			len(m.K.Records), m.Cuts, m.Restarts, md, idx, n, w.Cuts, detail), m)
 	}
 	mk := func(mode string, cuts, restarts []int) witness {
